@@ -411,8 +411,12 @@ def main_check(pid, argv=None):
         idx, tb = total["harness_errors"][0]
         print(f"HARNESS-ERROR in run index {idx} ({len(total['harness_errors'])} runs affected):\n{tb}")
         exit_code = 2
+    mismatch_only = False
     if total["mismatches"]:
-        print(f"HARNESS-ERROR determinism mismatch on run indices {total['mismatches'][:10]}")
+        print(f"HARNESS-ERROR determinism mismatch on run indices {total['mismatches'][:10]}"
+              " (process-global state leaking between runs? a violation that still reproduces in a fresh process is reported below)")
+        if exit_code == 0:
+            mismatch_only = True
         exit_code = 2
 
     # cross-process determinism (fresh interpreter, other PYTHONHASHSEED)
@@ -453,6 +457,8 @@ def main_check(pid, argv=None):
             hist[v["clause"]] = hist.get(v["clause"], 0) + 1
         print("violation clauses (not matching a known finding): " + json.dumps(hist, sort_keys=True))
     n_viol = 0
+    if unknown and mismatch_only:
+        exit_code = 0  # let the fresh-process replay decide; restored to 2 below if nothing reproduces
     if unknown and exit_code == 0:
         # one report per distinct clause, first occurrence (lowest index) first
         unknown.sort(key=lambda rv: (rv[0]["index"]))
@@ -482,9 +488,20 @@ def main_check(pid, argv=None):
                                 res_min["digest"], v_min.get("facts"), orig_len)
             rc, txt = fresh_process_replay(pid, path)
             if rc != 1:
-                print(f"HARNESS-ERROR replay {path} did not reproduce in a fresh process (rc={rc}):\n{txt[-1500:]}")
-                exit_code = 2
-                continue
+                # the minimised scenario may depend on state leaked between executions in this process (process-global
+                # state in the code under test): fall back to the original scenario of that run, replayed in a fresh process
+                res0 = run_one(mod, scen)
+                v0 = [x for x in res0.get("violations", []) if x["clause"] == v["clause"]]
+                path0 = write_replay(pid, rec["seed"], rec["index"], tier, scen, v["clause"], (v0[0] if v0 else v)["detail"],
+                                     res0.get("digest", ""), (v0[0] if v0 else v).get("facts"), orig_len)
+                rc0, txt0 = fresh_process_replay(pid, path0)
+                if rc0 == 1:
+                    print(f"note: the minimised scenario did not reproduce in a fresh process; reporting the unminimised scenario of run {rec['index']}")
+                    scen_min, v_min, path = scen, (v0[0] if v0 else v), path0
+                else:
+                    print(f"HARNESS-ERROR replay {path} did not reproduce in a fresh process (rc={rc}):\n{txt[-1500:]}")
+                    exit_code = 2
+                    continue
             new_len = sum(len(scen_min.get(k, [])) for k in getattr(mod, "STEP_KEYS", ("steps",)) if isinstance(scen_min.get(k), list))
             print(f"violation clause={v['clause']} run_index={rec['index']} seed={rec['seed']} "
                   f"minimised {orig_len}->{new_len} steps in {ntests} executions")
@@ -495,6 +512,8 @@ def main_check(pid, argv=None):
             if n_viol >= 3:
                 break
 
+    if mismatch_only and exit_code == 0:
+        exit_code = 2
     # evidence
     if not args.no_evidence:
         rph = total["runs"] / wall * 3600 if wall > 0 else 0
